@@ -12,6 +12,8 @@ usage: mt_mutants.py [--dry | --suite] [--jobs N] [--out FILE] [name-or-property
   --suite   instead of the checks, build the repository's own test programs (TESTS of /repo/test/Makefile.am) against
             the edited tree and run them: does the pinned suite notice the mutant?
   --jobs N  mutants in flight (default 3, never more: the machine is shared)
+  --watchdog SECS  kill harness drivers of these runs that burnt more than SECS CPU seconds (a spinning driver
+            otherwise costs the check its 900 s batch timeout per attempt; the survey of 2026-10-01 used 120)
   names     mutant names, or property ids (all mutants that list the property), default: all
 Scratch copies live under /tmp/mutsurvey/<name>/ and are removed when a mutant is done; /repo is never touched.
 Result classes: VIOLATION(input) = VIOLATION line with a replayable failing input; VIOLATION(no-input) = only
@@ -252,6 +254,14 @@ M = [
   ["\tspin_lock_sigmask(&sig_lock, &mask);\n\n\tiv_avl_tree_delete(iv_signal_tree(this), &this->an);", "\tspin_unlock_sigmask(&sig_lock, &mask);\n\n\tiv_event_raw_unregister(&this->ev);"],
   ["\tspin_lock(&sig_lock);\n\n\tiv_avl_tree_delete(iv_signal_tree(this), &this->an);", "\tspin_unlock(&sig_lock);\n\n\tiv_event_raw_unregister(&this->ev);"],
   ["C10"], "a delivery to the unregistering thread inside the critical section self-deadlocks on sig_lock / walks a tree under surgery"),
+ ("sig_event_no_sigblock", "iv_signal.c",
+  ["\tsigfillset(&all);\n\tpthr_sigmask(SIG_BLOCK, &all, &mask);\n\n", "\tpthr_sigmask(SIG_SETMASK, &mask, NULL);\n\n\tthis->handler(this->cookie);"],
+  ["", "\tthis->handler(this->cookie);"],
+  ["C10"], "a delivery to the thread that is clearing the active flag under sig_lock self-deadlocks in the signal handler"),
+ ("sig_child_register_no_reset", "iv_signal.c",
+  "\t\tiv_signal_child_reset_postfork();\n\t\tsig_owner_pid = mypid;",
+  "\t\tsig_owner_pid = mypid;",
+  ["C10"], "a forked child that registers an interest keeps the parent's interests: its signals trigger the parent's handlers"),
 
  # ---- C11: iv_wait (src/iv_wait.c) -----------------------------------------------------------------------------
  ("wait_no_dead_flag", "iv_wait.c",
@@ -328,6 +338,10 @@ M = [
   "\t\tdup2(info->data_pipe[1], 1);\n\t\tdup2(devnull, 2);",
   "\t\tdup2(info->data_pipe[1], 1);\n\t\tdup2(info->data_pipe[1], 2);",
   ["C19"], "type r: the child's standard error is not on the null device"),
+ ("popen_child_w_stderr_inherited", "iv_popen.c",
+  "\t\tdup2(info->data_pipe[0], 0);\n\t\tdup2(devnull, 1);\n\t\tdup2(devnull, 2);",
+  "\t\tdup2(info->data_pipe[0], 0);\n\t\tdup2(devnull, 1);",
+  ["C19"], "type w: the child's standard error is inherited instead of the null device"),
 
  # ---- C14: data races (locks removed / moved) ------------------------------------------------------------------
  ("race_event_post_add_after_unlock", "iv_event.c",
@@ -366,6 +380,14 @@ M = [
   ["\tiv_event_register(&thr->dead);\n\n\tthr->name = strdup(name);", "\tret = pthr_create(&thr->thread_id, NULL, iv_thread_handler, thr);\n\tif (ret)\n\t\tgoto out;\n"],
   ["\tthr->name = strdup(name);", "\tret = pthr_create(&thr->thread_id, NULL, iv_thread_handler, thr);\n\tif (ret) {\n\t\tfree(thr->name);\n\t\tfree(thr);\n\t\treturn -1;\n\t}\n\tiv_event_register(&thr->dead);\n"],
   ["C14"], "the 'dead' event is initialised by the creator after the thread started: a thread that ends at once posts it concurrently"),
+ ("race_wait_kill_no_lock", "iv_wait.c",
+  "\t___mutex_lock(&iv_wait_lock);\n\tif (!(this->flags & IV_WAIT_STATUS_DEAD))\n\t\tret = kill(this->pid, sig);\n\telse\n\t\tret = -ESRCH;\n\t___mutex_unlock(&iv_wait_lock);",
+  "\tif (!(this->flags & IV_WAIT_STATUS_DEAD))\n\t\tret = kill(this->pid, sig);\n\telse\n\t\tret = -ESRCH;",
+  ["C14"], "DEAD flag read by the kill helper without iv_wait_lock vs the reaper in another thread setting it"),
+ ("race_work_thread_needed_no_lock", "iv_work.c",
+  "\t___mutex_lock(&pool->lock);\n\n\tif (iv_list_empty(&pool->idle_threads) && \n\t    pool->started_threads < pool->max_threads) {\n\t\tiv_work_start_thread(pool);\n\t}\n\n\t___mutex_unlock(&pool->lock);",
+  "\tif (iv_list_empty(&pool->idle_threads) && \n\t    pool->started_threads < pool->max_threads) {\n\t\tiv_work_start_thread(pool);\n\t}",
+  ["C14"], "owner reads idle list / thread count without the pool lock when a worker asked for a thread (continuation path)"),
  ("race_active_fd_refcount_no_lock", "iv_fd_epoll.c",
   "\t___mutex_lock(&iv_fd_epoll_active_fd_mutex);\n\tif (!iv_active_fd_refcount++)\n\t\tiv_active_fd = iv_fd_epoll_create_active_fd();\n\t___mutex_unlock(&iv_fd_epoll_active_fd_mutex);",
   "\tif (!iv_active_fd_refcount++)\n\t\tiv_active_fd = iv_fd_epoll_create_active_fd();",
@@ -559,12 +581,46 @@ def run(m, dry, outf):
     return res
 
 
+def watchdog(limit, log):
+    """A mutant that makes a harness driver spin costs the check its 900 s batch timeout per attempt (and the shrinker
+    repeats it).  The watchdog kills drivers (executables under /verif/build/run/ that are grandchildren of THIS
+    process only) which burnt more than `limit` CPU seconds; the check then sees an ordinary crash of that case."""
+    tck = os.sysconf("SC_CLK_TCK")
+    me = os.getpid()
+    while True:
+        time.sleep(15)
+        par, cpu = {}, {}
+        for p in os.listdir("/proc"):
+            if not p.isdigit():
+                continue
+            try:
+                f = open("/proc/%s/stat" % p).read().rsplit(")", 1)[1].split()
+                par[int(p)] = int(f[1])
+                cpu[int(p)] = (int(f[11]) + int(f[12])) / tck
+            except (OSError, IndexError, ValueError):
+                pass
+        kids = [p for p in par if par[p] == me]
+        for g in [p for p in par if par[p] in kids]:
+            try:
+                exe = os.readlink("/proc/%d/exe" % g)
+            except OSError:
+                continue
+            if exe.startswith(os.path.join(VERIF, "build", "run") + "/") and cpu[g] > limit:
+                with _print_lock:
+                    print("watchdog: kill %d %s cpu=%ds" % (g, exe, cpu[g]))
+                    sys.stdout.flush()
+                try:
+                    os.kill(g, 9)
+                except OSError:
+                    pass
+
+
 def main():
     args = sys.argv[1:]
     dry = "--dry" in args
     if "--suite" in args:
         dry = "suite"
-    jobs, out = 3, None
+    jobs, out, wd = 3, None, 0
     sel = []
     i = 0
     while i < len(args):
@@ -574,6 +630,9 @@ def main():
             i += 1
         elif a == "--out":
             out = args[i + 1]
+            i += 1
+        elif a == "--watchdog":
+            wd = int(args[i + 1])
             i += 1
         elif a not in ("--dry", "--suite"):
             sel.append(a)
@@ -590,6 +649,8 @@ def main():
                 order.append(by[k].pop(0))
     os.makedirs(SCRATCH, exist_ok=True)
     outf = open(out, "a") if out else None
+    if wd > 0:
+        threading.Thread(target=watchdog, args=(wd, None), daemon=True).start()
     from concurrent.futures import ThreadPoolExecutor
     with ThreadPoolExecutor(max_workers=jobs) as ex:
         list(ex.map(lambda m: run(m, dry, outf), order))
